@@ -102,7 +102,7 @@ def store_state(fn, PTS):
         cp.read(fn)
         mp = cp.getfloat('guessing_info', 'max_probability')
     except Exception:
-        return N + 1, False, 0
+        return N + 1, False, 0, 0
     rank = N + 1
     for i, p in enumerate(PTS, 1):
         if p['prob'] == mp:
@@ -110,7 +110,8 @@ def store_state(fn, PTS):
             break
     has = cp.has_option('guessing_info', 'omen_guess_number')
     og = cp.getint('guessing_info', 'omen_guess_number') if has else 0
-    return rank, has, og
+    ng = cp.getint('session_info', 'num_guesses') if cp.has_option('session_info', 'num_guesses') else 0
+    return rank, has, og, ng
 
 
 def itrace(tid, E, PTS, r, script, init, fn, start_pos):
@@ -143,9 +144,9 @@ def itrace(tid, E, PTS, r, script, init, fn, start_pos):
             pos += 1
         else:
             stream.append([0, 0])
-    rank, has, og = store_state(fn, PTS)
+    rank, has, og, ng = store_state(fn, PTS)
     return {'tid': tid, 'init': init, 'script': list(script), 'ev': ev,
-            'final': {'stream': stream, 'maxp': rank, 'hasomen': has}}
+            'final': {'stream': stream, 'maxp': rank, 'hasomen': has, 'ng': ng}}
 
 
 def fresh_cfg(desc_flags=None):
@@ -179,7 +180,7 @@ def gated_histories(path, E, scripts, rng, n_random, work, PTS=None, itraces=Non
             r = run.run(chooser)
             if itraces is not None and r['finished'] and not r['error']:
                 N = len(PTS)
-                itraces.append(itrace(0, E, PTS, r, script, {'sess': 1, 'maxp': N + 1, 'hasomen': False, 'ognum': 0, 'opt': 0, 'opos': 0}, fn, 0))
+                itraces.append(itrace(0, E, PTS, r, script, {'sess': 1, 'maxp': N + 1, 'hasomen': False, 'ognum': 0, 'opt': 0, 'opos': 0, 'ng': 0}, fn, 0))
             qn = None
             cnt = 0
             for who, gate, info in r['log']:
